@@ -50,7 +50,8 @@ def workload():
         w % ('20190101000000', 'r'), w % ('20190101000000im_', 'i.png'), uk % ('20190101000000', 'u'))
     arch_b = '<p>Intro <a href="%s">report</a> and <img src="%s"> then <a href="%s">uk</a> <a href="/s;jsessionid=BBB">session</a></p>' % (
         w % ('20200202000000', 'r'), w % ('20200202000000im_', 'i.png'), uk % ('20200202000000', 'u'))
-    for rules in ('wayback', 'wayback_uk', 'jsessionid', '', 'wayback_uk,wayback', 'jsessionid,wayback,wayback_uk', None):
+    for rules in ('wayback', 'wayback_uk', 'jsessionid', '', 'wayback_uk,wayback', 'jsessionid,wayback,wayback_uk', None,
+                  'jsessionid,wayback', 'jsessionid,wayback_uk', 'wayback_uk,jsessionid', 'wayback,jsessionid'):
         cases.append(('archived-%s' % rules, 'html_token', dict(a_text=arch_a, b_text=arch_b, include='all', url_rules=rules)))
         cases.append(('archived-rev-%s' % rules, 'html_token', dict(a_text=arch_b, b_text=arch_a, include='combined', url_rules=rules)))
     # versions of one page diffed in a row, as a monitoring job does (v1->v2, v2->v3, the same request again): results
